@@ -165,13 +165,17 @@ structure WMpk where
   structure_ : WStruct
 deriving DecidableEq, Repr
 
+/-- `(Right, RightPublicKey)` -/
+def mpkItem (c : Cfg) : Dec (Bytes × WKey) := fun bs =>
+  match vec bs with
+  | none => none
+  | some (right, r) => (key (pk c) c.ek r).map (fun p => ((right, p.1), p.2))
+
 def mpk (c : Cfg) : Dec WMpk := fun bs =>
   match counted (pk c) true bs with
   | none => none
   | some (tpk, r) =>
-    match counted (fun bs => match vec bs with
-        | none => none
-        | some (right, r) => (key (pk c) c.ek r).map (fun p => ((right, p.1), p.2))) false r with
+    match counted (mpkItem c) false r with
     | none => none
     | some (keys, r) =>
       match struct_ r with
@@ -189,25 +193,35 @@ deriving DecidableEq, Repr
 
 def userId (c : Cfg) : Dec (List Bytes) := counted (sk c) true
 
+/-- `(tracer scalar, tracer point)` -/
+def tracer (c : Cfg) : Dec (Bytes × Bytes) := fun bs =>
+  match sk c bs with
+  | none => none
+  | some (t, r) => (pk c r).map (fun p => ((t, p.1), p.2))
+
+/-- `(is_activated, RightSecretKey)` -/
+def mskChainItem (c : Cfg) : Dec (Bool × WKey) := fun bs =>
+  match leb bs with
+  | none => none
+  | some (flag, r) => (key (sk c) c.dk r).map (fun p => ((flag == 1, p.1), p.2))
+
+/-- `(Right, chain)` of the master key -/
+def mskItem (c : Cfg) : Dec (Bytes × List (Bool × WKey)) := fun bs =>
+  match vec bs with
+  | none => none
+  | some (right, r) => (counted (mskChainItem c) false r).map (fun p => ((right, p.1), p.2))
+
 def msk (c : Cfg) : Dec WMsk := fun bs =>
   match sk c bs with
   | none => none
   | some (s, r) =>
-    match counted (fun bs => match sk c bs with
-        | none => none
-        | some (t, r) => (pk c r).map (fun p => ((t, p.1), p.2))) true r with
+    match counted (tracer c) true r with
     | none => none
     | some (tracers, r) =>
       match counted (userId c) false r with
       | none => none
       | some (users, r) =>
-        match counted (fun bs => match vec bs with
-            | none => none
-            | some (right, r) =>
-              (counted (fun bs => match leb bs with
-                | none => none
-                | some (flag, r) => (key (sk c) c.dk r).map (fun p => ((flag == 1, p.1), p.2))) false r).map
-                (fun p => ((right, p.1), p.2))) false r with
+        match counted (mskItem c) false r with
         | none => none
         | some (secrets, r) =>
           match (if r.length < SIGK then some (none, r) else (takeN SIGK r).map (fun p => (some p.1, p.2))) with
@@ -224,6 +238,12 @@ structure WUsk where
   signature : Option Bytes
 deriving DecidableEq, Repr
 
+/-- `(Right, chain)` of a user key -/
+def uskItem (c : Cfg) : Dec (Bytes × List WKey) := fun bs =>
+  match vec bs with
+  | none => none
+  | some (right, r) => (counted (key (sk c) c.dk) false r).map (fun p => ((right, p.1), p.2))
+
 def usk (c : Cfg) : Dec WUsk := fun bs =>
   match userId c bs with
   | none => none
@@ -231,9 +251,7 @@ def usk (c : Cfg) : Dec WUsk := fun bs =>
     match counted (pk c) false r with
     | none => none
     | some (ps, r) =>
-      match counted (fun bs => match vec bs with
-          | none => none
-          | some (right, r) => (counted (key (sk c) c.dk) false r).map (fun p => ((right, p.1), p.2))) false r with
+      match counted (uskItem c) false r with
       | none => none
       | some (secrets, r) =>
         -- `insert_new_chain` drops empty chains
@@ -251,6 +269,15 @@ structure WEnc where
   encs : List (Bytes × Bytes)
 deriving DecidableEq, Repr
 
+/-- `(E, F)` of a hybridized encapsulation -/
+def encItemH (c : Cfg) : Dec (Bytes × Bytes) := fun bs =>
+  match takeN c.enc bs with
+  | none => none
+  | some (e, r) => (takeN SS r).map (fun p => ((e, p.1), p.2))
+
+/-- `F` of a classic encapsulation -/
+def encItemC : Dec (Bytes × Bytes) := fun bs => (takeN SS bs).map (fun p => (([], p.1), p.2))
+
 def xenc (c : Cfg) : Dec WEnc := fun bs =>
   match takeN TAG bs with
   | none => none
@@ -262,13 +289,9 @@ def xenc (c : Cfg) : Dec WEnc := fun bs =>
       | none => none
       | some (flag, r) =>
         if flag = 1 then
-          (counted (fun bs => match takeN c.enc bs with
-            | none => none
-            | some (e, r) => (takeN SS r).map (fun p => ((e, p.1), p.2))) false r).map
-            (fun p => (⟨tag, traps, true, p.1⟩, p.2))
+          (counted (encItemH c) false r).map (fun p => (⟨tag, traps, true, p.1⟩, p.2))
         else if flag = 0 then
-          (counted (fun bs => (takeN SS bs).map (fun p => (([], p.1), p.2))) false r).map
-            (fun p => (⟨tag, traps, false, p.1⟩, p.2))
+          (counted encItemC false r).map (fun p => (⟨tag, traps, false, p.1⟩, p.2))
         else none
 
 structure WHeader where
